@@ -62,10 +62,11 @@ Env == [L1 |-> l1, L2 |-> L2Rows]
 (* ---------------- the call menu ---------------- *)
 AllPreds ==
     {PLit(TRUE), PLit(FALSE), Cmp("lt", A, B), Cmp("eq", A, Lit(0)), In(B, Range(0, 2, 1)),
+     In(A, Range(1, -1, -1)),            \* a DESCENDING non-empty range (members 1, 0)
      And(<<Cmp("gt", A, Lit(0)), Cmp("le", B, Lit(1))>>), Or(<<Cmp("eq", A, Lit(1)), Cmp("eq", B, Lit(0))>>),
      Cmp("lt", C, Lit(1)), Cmp("ne", A, Lit(1)), Not(Cmp("eq", B, Lit(1))),
      Cmp("eq", V, Lit(1)), And(<<PLit(TRUE), Cmp("ge", C, A)>>)}
-      \cup (IF Rich THEN {In(A, SeqC(<<B, Lit(1)>>)), In(A, Range(1, -1, -1)), Cmp("gt", D, C),
+      \cup (IF Rich THEN {In(A, SeqC(<<B, Lit(1)>>)), In(B, Range(2, 0, -2)), Cmp("gt", D, C),
                           And(<<Cmp("ge", A, Lit(0)), PLit(FALSE)>>)} ELSE {})
 
 AllSorts ==
@@ -190,9 +191,9 @@ DiagSound ==
        /\ d1.doomed => d1.msgs >= 1
 
 LazyPromise ==
-    LET c == Cost(rel)  occ == Occ(rel) IN
-    LazyOnly(rel) => /\ \A i \in DOMAIN c.ex : c.ex[i] = 0
-                     /\ \A i \in DOMAIN c.it : c.it[i] <= occ[i]
+    LET c == Cost(rel)  cm == CostM(rel)  occ == Occ(rel) IN
+    LazyOnly(rel) => /\ \A i \in DOMAIN c.ex : c.ex[i] = 0 /\ cm.ex[i] = 0
+                     /\ \A i \in DOMAIN c.it : c.it[i] <= occ[i] /\ cm.it[i] <= occ[i]
 
 \* the documented no-op calls return the relation itself
 IsNoOpCall(c, r) ==
@@ -261,6 +262,7 @@ EmitState ==
                       trivial |-> Trivial(rel), jid |-> JoinIdentity(rel)],
             doomed |-> <<d0.doomed, d1.doomed>>,
             lazy |-> [only |-> LazyOnly(rel), ex |-> c.ex, it |-> c.it, occ |-> Occ(rel)],
+            lazym |-> [ex |-> CostM(rel).ex, it |-> CostM(rel).it],
             rejects |-> Rejects(rel),
             fired |-> Fired])>>)
 =============================================================================
